@@ -3989,3 +3989,58 @@ func idlePolarity(w *World, v *variant, info *types.Info, e ast.Expr) string {
 	}
 	return ""
 }
+
+// ruleCommitRespectsOlderReaders (R04.23): the committed register table keeps ONE value per
+// register. Folding a renamed write into it destroys the value an OLDER instruction that has
+// not read the register yet still needs (it is dispatched, holds a pending-read entry, and
+// waits for another operand). The functions that fold the rename table at the resolution of a
+// branch must therefore take the older readers into account: skip registers that have a
+// pending read, or be bounded by the tag of the oldest in-flight instruction.
+func ruleCommitRespectsOlderReaders(r *Run, rule string) {
+	w := r.W
+	p := w.Pkg("risc")
+	if p == nil {
+		r.undecided(rule, "risc", token.NoPos, "package risc not loaded")
+		return
+	}
+	info := p.TypesInfo
+	// only meaningful if some variant folds the rename table at branch resolution
+	used := false
+	for _, v := range variants(w) {
+		if v.pkg != nil && v.run != nil && w.reaches(v.info, v.run, func(fn *types.Func) bool { return fn.Name() == "RATCommit" || fn.Name() == "RATRollback" }) {
+			used = true
+		}
+	}
+	if !used {
+		return
+	}
+	for _, name := range []string{"RATCommit", "RATRollback"} {
+		fd, _ := w.Method("risc", "Context", name)
+		if fd == nil || fd.Body == nil {
+			r.undecided(rule, "risc.(Context)."+name+":older-readers", token.NoPos, "function not found")
+			continue
+		}
+		// does the fold consult the pending reads (here or in what it calls)?
+		consults := false
+		var visit func(n ast.Node, depth int)
+		seen := map[*ast.FuncDecl]bool{}
+		visit = func(n ast.Node, depth int) {
+			ast.Inspect(n, func(m ast.Node) bool {
+				if sel, ok := m.(*ast.SelectorExpr); ok && sel.Sel.Name == "PendingReadRegisters" {
+					consults = true
+				}
+				if c, ok := m.(*ast.CallExpr); ok && depth < 3 {
+					if fn, ok := typeutil.Callee(info, c).(*types.Func); ok && fn.Pkg() == p.Types {
+						if cfd, _ := w.FuncDecl(fn); cfd != nil && cfd.Body != nil && !seen[cfd] {
+							seen[cfd] = true
+							visit(cfd.Body, depth+1)
+						}
+					}
+				}
+				return true
+			})
+		}
+		visit(fd.Body, 0)
+		r.check(consults, rule, "risc.(Context)."+name+":older-readers", fd.Pos(), "%s folds renamed writes into the one-value-per-register committed table without regard to older in-flight instructions that have not read the register yet (it consults neither the pending reads nor the age of the oldest in-flight instruction)", name)
+	}
+}
